@@ -22,7 +22,8 @@ CHECKS.update({
             "Trusts CPython integers; lattice values only; an empty field for bit-field-rotate and 3-argument bitwise-eqv are not asserted.",
             "DESIGN.md §4 C17"),
     "C02": ("fault_enumeration", "exhaustive enumeration of forced-collection points (every allocation index, all-positions, every n-th) on the real interpreter under ASan with poisoned free memory",
-            "For each workload (closures/lists, strings and ports, bignums/ratios/flonums, continuations/dynamic-wind/exceptions/parameters, "
+            "For each workload (closures/lists, procedures outliving their environment, 85 kinds of C-made error object incl. bad arguments "
+            "to FFI stubs, strings and ports, bignums/ratios/flonums, continuations/dynamic-wind/exceptions/parameters, "
             "eval + syntax-rules, hash tables/sort/bit ops, json/reader/writer/files/FFI stubs, SRFI-18 threads, two micro workloads) the "
             "collection schedule is the only thing varied: a collection before every allocation, every n-th, and one collection before "
             "allocation k for every k (micro workloads; all workloads in the thorough tier; strided otherwise), for several initial heap sizes. "
@@ -31,9 +32,10 @@ CHECKS.update({
             "Workloads fix the programs; the boot window before the language is loaded is not scheduled; trusts ASan + the poisoning plugin.",
             "DESIGN.md §4 C02"),
     "C11": ("model_checking", "stateless model checking of the real VM and SRFI-18 scheduler under a controlled scheduler with iterative pre-emption bounding (CHESS style) and a virtual clock",
-            "11 drivers (2-4 green threads sharing one mutex / condition variable / counter: lock-increment-unlock, producer-consumer with "
-            "mutex-unlock!+condvar, broadcast, timed lock and timed wait racing their events, joins with and without timeout, terminate of a "
-            "blocked thread, sleeps, per-thread parameters and dynamic-wind, yield storm). Every schedule with at most k deviations "
+            "14 drivers (2-5 green threads sharing one mutex / condition variable / counter: lock-increment-unlock, producer-consumer with "
+            "mutex-unlock!+condvar, broadcast, timed lock and timed wait racing their events, joins with and without timeout, two joiners "
+            "of one thread next to an older waiter, terminate of a blocked thread, sleeps, a sleeper whose last wait was on the object another "
+            "thread waits for (mutex and condition variable), per-thread parameters and dynamic-wind, yield storm). Every schedule with at most k deviations "
             "(k=2 quick, up to 3 thorough) is executed on the implementation; a deviation ends the running thread's time slice before a chosen "
             "visible instruction, optionally after advancing the virtual clock so that pending timeouts fire. Checked on every execution: "
             "critical-section occupancy never exceeds one, every waiter resumes, every started thread finishes and join delivers its "
@@ -44,7 +46,9 @@ CHECKS.update({
             "Every variable-capture skeleton (12 binder kinds x 11 roles incl. captured+mutated, mutated-only, shadowed, forward-referenced "
             "internal define, rest parameters, escaping closures x depth <= 4 x position, and all role pairs for two variables of one frame) "
             "and every derived-form expression up to a size bound (cond/=>/else, case, and/or/when/unless, do, named let, nested quasiquote "
-            "with splicing, apply, values/call-with-values, arity errors) is compiled and run by the real interpreter and evaluated by the "
+            "with splicing, apply, values/call-with-values, arity errors), the scope matrix of the binding forms when the bound name or loop "
+            "name has an outer binding, forward references between internal definitions through every kind of <init>, case with flonum / "
+            "bignum / ratio keys, and programs with top-level forms (redefinition uses the old value, R7RS 5.3.1) is compiled and run by the real interpreter and evaluated by the "
             "reference machine mc/models/refscheme.py; printed value, observation trace and error outcome must agree.",
             "The oracle is my reading of R7RS encoded in refscheme.py; operand evaluation order and unspecified values are factored out.",
             "DESIGN.md §4 C03"),
@@ -87,8 +91,9 @@ CHECKS.update({
             "Relies on the VM publishing its stack top before foreign calls; call/cc and call-with-values are not among the property's contexts.",
             "DESIGN.md §4 C05"),
     "C07": ("exploration", "bounded-exhaustive metamorphic enumeration: every admissible consistent renaming of user variables in a library of macro-use programs",
-            "17 macro-use templates (syntax-rules binding-introducing / free-reference / nested ellipsis / literals / macro-defining macro, "
-            "er-, sc- and rsc-macro-transformer versions, let-syntax, letrec-syntax, nested uses) x 6 binding forms x {first, second, both} "
+            "22 macro-use templates (syntax-rules binding-introducing / free-reference / nested ellipsis / literals / macro-defining macro, "
+            "er-, sc- and rsc-macro-transformer versions, let-syntax, letrec-syntax, nested uses, user variables in the position where a macro "
+            "- also cond, case, guard - looks for a literal) x 6 binding forms x {first, second, both} "
             "user variable x every admissible target among 76 names (fresh names, every identifier occurring in a macro template or "
             "transformer, core keywords incl. _ and ..., standard procedures). The renamed program must print exactly what the original "
             "prints, and the original must print the hand-derived value.",
@@ -96,8 +101,8 @@ CHECKS.update({
             "definitions of the same body (both are outside what R7RS defines).", "DESIGN.md §4 C07"),
     "C14": ("model_checking", "explicit-state exploration of the import-set algebra: every import-set expression up to a nesting bound executed by the real library system and compared name by name with a set-algebra model",
             "States are identifier maps reached from the export set of a generated library (plain exports, an export renamed from a private "
-            "name, a prefixed name) by only / except (all subsets of size <= 3 / 2), rename (single, double, swap, chain), prefix and "
-            "drop-prefix, nesting depth 3 (quick) / 4 (thorough); every expression is handed to `environment` and queried for every name "
+            "name, a prefixed name) by only / except (all subsets of size <= 3 / 2, and the two import sets that expose nothing), rename (single, double, swap, "
+            "chain), prefix and drop-prefix (one exported name is spelled exactly like the prefix), nesting depth 3 (quick) / 4 (thorough); every expression is handed to `environment` and queried for every name "
             "of the universe (original, private, renamed, prefixed, unrelated). A fixed scenario checks that private helpers behind an exported "
             "macro stay invisible while the macro works (also through a re-exporting library and a nested macro), that re-exports denote the "
             "exporting library's binding, and that all importers share one instance of a library's state (body evaluated once).",
@@ -106,10 +111,13 @@ CHECKS.update({
     "C16": ("model_checking", "explicit-state exploration of ephemeron / port histories with a collection possible at every position, against a reachability model",
             "harness/ephmc.c explores every history of <= 6 (7 thorough) operations over 23 operations (new key, new ephemeron with value = "
             "fresh object / other key / other ephemeron / list holding its own key, drop key, drop ephemeron, gc) on the real collector under "
-            "ASan with freed memory poisoned; after every step: never broken while the key is strongly reachable, broken after the collection "
+            "ASan with freed memory poisoned, once with a one-segment heap and once (one level shallower) with a second, last segment while the "
+            "objects live in the first; after every step: never broken while the key is strongly reachable, broken after the collection "
             "that finds it unreachable, value intact while the key lives. scheme/weak/fds.scm runs every history of <= 5 port operations "
-            "(open, read, close, drop, gc) checking the number of open descriptors after every step, and 700 unclosed unreferenced ports under "
-            "RLIMIT_NOFILE=64.",
+            "(open, read, close, drop, gc) checking the number of open descriptors after every step, 700 unclosed unreferenced ports under "
+            "RLIMIT_NOFILE=64, and ports held only as ephemeron values; scheme/weak/fds2.scm runs every history of <= 4 operations over two "
+            "slots x {file port, port on a descriptor object, bare descriptor object closed explicitly}: nothing reachable is ever closed "
+            "(exact lower bound, readability), nothing unreachable stays open beyond a lag of two.",
             "The harness owns all roots; /proc/self/fd is the descriptor oracle; weak hash tables are not exported by the pinned (chibi weak).",
             "DESIGN.md §4 C16"),
 })
@@ -120,9 +128,13 @@ CHECKS.update({
             "primitives applied to every argument tuple over a 67-value alphabet (arity <= 2; a 12-value core for a third argument): each call "
             "must end in a value or an exception object caught by guard, and after every batch a fixed probe program must evaluate as in a "
             "pristine context; (2) read, (scheme read), string->number (radix 2, 10, 16) and eval on all byte strings up to length 3 (4 thorough) "
-            "over a 38-symbol reader alphabet incl. invalid UTF-8 bytes; (3) 14 nesting / length families for read, write, equal?, eval, "
-            "append, apply up to depth 10^6 on the ASan and the plain build: a value or a catchable error, never a signal. Violations are an "
-            "AddressSanitizer report, a fatal signal, abort, a C-level hang (no VM instruction executed for the time budget) or a probe mismatch.",
+            "over a 38-symbol reader alphabet incl. invalid UTF-8 bytes (a guarded eval must return exactly once); (2b) every sequence of <= 3 "
+            "datum-label tokens (#N=x, #N#) over a 23-value label lattice through both readers with a functional oracle; (2c) strings, "
+            "|symbols|, plain symbols, integers, decimals, #\\x characters and bytevectors at every length of a lattice around the reader's "
+            "buffer sizes (2^6..2^10, 1200), ending in every kind of escape or multi-byte character; (3) 16 nesting / length families for read, "
+            "write, equal?, eval, append, apply (also from a frame some hundred calls deep) up to depth 10^6 on the ASan and the plain build: a "
+            "value or a catchable error, never a signal. Violations are an AddressSanitizer report, a fatal signal, abort, a C-level hang, a "
+            "call that exhausts 300000 VM instructions although every argument is small (non-termination), a wrong datum, or a probe mismatch.",
             "Calls that legitimately do not terminate or that exhaust memory by contract (e.g. make-vector 2^62) are skipped by a listed rule; "
             "a C stack overflow seen only under ASan's inflated frames is not counted when the plain build ends cleanly.", "DESIGN.md §4 C01"),
     "C13": ("model_checking", "explicit-state exploration of interleaved operation sequences on 2-3 contexts against a solo baseline, plus stateless exploration of OS-thread schedules (pre-emption bounded) at interposed process-wide libc calls, plus a free-running ThreadSanitizer pass",
